@@ -7,6 +7,7 @@
 package main
 
 import (
+	"bytes"
 	"encoding/json"
 	"flag"
 	"fmt"
@@ -15,6 +16,7 @@ import (
 	"path/filepath"
 	"regexp"
 	"runtime"
+	"runtime/debug"
 	"sort"
 	"strconv"
 	"strings"
@@ -154,6 +156,9 @@ type replayFile struct {
 	Desc     []string `json:"description"`
 	Trace    []string `json:"trace"`
 	OrigTape int      `json:"original_tape_len"`
+	// History: runs (indices under Seed) that must be executed in the same process before the
+	// tape for the violation to appear: the result depends on what was parsed before.
+	History []int `json:"history_runs,omitempty"`
 }
 
 func execTape(prop string, tape []uint32, trace bool, env map[string]string) core.Result {
@@ -323,6 +328,11 @@ func runReplay(args []string) int {
 		return replayRace(&rf, *file)
 	}
 	env := map[string]string{"tier": rf.Tier, "self": os.Args[0], "race": strconv.FormatBool(raceEnabled)}
+	if len(rf.History) > 0 {
+		debug.SetGCPercent(-1) // process state (e.g. sync.Pool contents) must not depend on GC timing
+		runHistory(rf.Property, rf.Seed, rf.History, env)
+		fmt.Printf("executed %d history runs first (the violation depends on what was parsed before in the process)\n", len(rf.History))
+	}
 	res := execTape(rf.Property, rf.Tape, true, env)
 	props.Cleanup()
 	if res.Harness != nil {
@@ -475,7 +485,7 @@ func runCheck(args []string) int {
 					continue // same conflicting pair already confirmed and minimised
 				}
 				raceSeen[sumKey] = true
-				vr, problem := confirmRace(*prop, seed, *tier, rr, *raceBin, cfg.singleProc)
+				vr, problem := confirmRace(*prop, seed, *tier, rr, *raceBin, cfg.singleProc, errOut)
 				if vr == nil {
 					broken = append(broken, fmt.Sprintf("worker %d: %s", i, problem))
 					continue
@@ -534,14 +544,30 @@ func runCheck(args []string) int {
 			continue
 		}
 		seenClass[key] = true
-		c := exec.Command(os.Args[0], "replay", "-file", v.Replay, "-quiet")
-		c.Env = append(os.Environ(), "GORACE=halt_on_error=1 exitcode=66")
-		if cfg.singleProc {
-			c.Env = append(c.Env, "GOMAXPROCS=1")
+		doReplay := func() (*exec.Cmd, []byte) {
+			c := exec.Command(os.Args[0], "replay", "-file", v.Replay, "-quiet")
+			c.Env = append(os.Environ(), "GORACE=halt_on_error=1 exitcode=66")
+			if cfg.singleProc {
+				c.Env = append(c.Env, "GOMAXPROCS=1")
+			}
+			ob, _ := c.CombinedOutput()
+			return c, ob
 		}
-		ob, _ := c.CombinedOutput()
+		c, ob := doReplay()
+		if !strings.HasSuffix(v.Class, "/race") && strings.Contains(string(ob), "REPLAY-CLEAN") {
+			// found in a worker but not reproducible from the tape alone: depends on earlier runs of that worker
+			if historyConfirm(*prop, *tier, seed, &v, W, cfg.singleProc) {
+				c, ob = doReplay()
+				v.Facts += " history-dependent"
+			}
+		}
 		if c.ProcessState != nil && c.ProcessState.ExitCode() == 1 && strings.Contains(string(ob), "VIOLATION property=") {
 			fmt.Printf("run %d: %s [%s]\n  %s\n  minimised tape: %d draws (%d shrink executions)\n", v.Run, v.Class, v.Facts, v.Msg, v.Shrunk, v.Execs)
+			fmt.Printf("VIOLATION property=%s replay=%s\n", *prop, v.Replay)
+			exit = 1
+		} else if strings.HasSuffix(v.Class, "/race") && strings.Contains(string(ob), "REPLAY-CLEAN") {
+			// the detector's own report is authoritative (no false positives); its bounded history makes reproduction probabilistic
+			fmt.Printf("run %d: %s [%s]\n  %s\n  (reported by the race detector in the worker; 6 replay attempts did not reproduce it - the report is in the replay file)\n", v.Run, v.Class, v.Facts, v.Msg)
 			fmt.Printf("VIOLATION property=%s replay=%s\n", *prop, v.Replay)
 			exit = 1
 		} else {
@@ -693,6 +719,123 @@ func runDigest(args []string) int {
 	return 0
 }
 
+func runHistory(prop string, seed uint64, hist []int, env map[string]string) {
+	f := props.Registry[prop]
+	for _, r := range hist {
+		tp := core.NewTape(core.RunSeed(seed, prop, r))
+		core.Exec(prop, tp, false, func(c *core.Ctx) *core.Violation { c.Env = env; return f(c) })
+	}
+}
+
+type execSeqReq struct {
+	Property string   `json:"property"`
+	Tier     string   `json:"tier"`
+	Seed     uint64   `json:"seed"`
+	History  []int    `json:"history"`
+	Tape     []uint32 `json:"tape"`
+}
+
+// runExecSeq executes history runs and then a tape in one process (GC off).
+func runExecSeq() int {
+	var req execSeqReq
+	if err := json.NewDecoder(os.Stdin).Decode(&req); err != nil || props.Registry[req.Property] == nil {
+		return 2
+	}
+	debug.SetGCPercent(-1)
+	env := map[string]string{"tier": req.Tier, "self": os.Args[0], "race": strconv.FormatBool(raceEnabled)}
+	runHistory(req.Property, req.Seed, req.History, env)
+	res := execTape(req.Property, req.Tape, false, env)
+	props.Cleanup()
+	if res.Harness != nil {
+		return 2
+	}
+	if res.V != nil {
+		fmt.Printf("CLASS %s\n", res.V.Class)
+		return 1
+	}
+	return 0
+}
+
+func execSeqProc(prop, tier string, seed uint64, hist []int, tape []uint32, single bool) (int, string) {
+	req, _ := json.Marshal(execSeqReq{Property: prop, Tier: tier, Seed: seed, History: hist, Tape: tape})
+	cmd := exec.Command(os.Args[0], "exec-seq")
+	cmd.Stdin = bytes.NewReader(req)
+	if single {
+		cmd.Env = append(os.Environ(), "GOMAXPROCS=1")
+	}
+	out, _ := cmd.CombinedOutput()
+	code := 2
+	if cmd.ProcessState != nil {
+		code = cmd.ProcessState.ExitCode()
+	}
+	return code, string(out)
+}
+
+// historyConfirm handles a violation that a worker found but that does not reproduce from
+// its tape alone in a fresh process: it depends on runs executed earlier in the worker. The
+// earlier runs of that worker (indices r0, r0+W, ... < r) are minimised with ddmin, one
+// process per candidate, and stored in the replay file.
+func historyConfirm(prop, tier string, seed uint64, v *violationRec, W int, single bool) bool {
+	b, err := os.ReadFile(v.Replay)
+	if err != nil {
+		return false
+	}
+	var rf replayFile
+	if json.Unmarshal(b, &rf) != nil {
+		return false
+	}
+	var hist []int
+	for i := v.Run % W; i < v.Run; i += W {
+		hist = append(hist, i)
+	}
+	class := "CLASS " + v.Class
+	test := func(h []int) bool {
+		code, out := execSeqProc(prop, tier, seed, h, rf.Tape, single)
+		return code == 1 && strings.Contains(out, class)
+	}
+	if !test(hist) {
+		return false
+	}
+	// ddmin
+	deadline := time.Now().Add(150 * time.Second)
+	n := 2
+	for len(hist) >= 2 && time.Now().Before(deadline) {
+		chunk := (len(hist) + n - 1) / n
+		reduced := false
+		for i := 0; i < len(hist) && !reduced; i += chunk {
+			j := i + chunk
+			if j > len(hist) {
+				j = len(hist)
+			}
+			// try the chunk alone, then its complement
+			if c := hist[i:j]; len(c) < len(hist) && test(c) {
+				hist = append([]int(nil), c...)
+				n = 2
+				reduced = true
+			} else if c := append(append([]int(nil), hist[:i]...), hist[j:]...); len(c) > 0 && len(c) < len(hist) && test(c) {
+				hist = c
+				if n > 2 {
+					n--
+				}
+				reduced = true
+			}
+		}
+		if !reduced {
+			if n >= len(hist) {
+				break
+			}
+			n *= 2
+			if n > len(hist) {
+				n = len(hist)
+			}
+		}
+	}
+	rf.History = hist
+	rf.Facts += " history-dependent"
+	nb, _ := json.MarshalIndent(rf, "", " ")
+	return os.WriteFile(v.Replay, nb, 0o644) == nil
+}
+
 // runTape prints the recorded tape of one run as JSON.
 func runTape(args []string) int {
 	fs := flag.NewFlagSet("tape", flag.ExitOnError)
@@ -834,6 +977,8 @@ func main() {
 		os.Exit(runTape(os.Args[2:]))
 	case "exec-tape":
 		os.Exit(runExecTape())
+	case "exec-seq":
+		os.Exit(runExecSeq())
 	case "triage":
 		os.Exit(runTriage(os.Args[2:]))
 	}
